@@ -85,6 +85,25 @@ ChainSound == pc = "done" /\ Len(emitted) >= 2 =>
 
 Termination == <>(pc = "done")
 
+(* termRange.Enumerate, transcribed as the loop it is, and its iteration    *)
+(* count; EnumCountOK validates the closed form EnumWithin used by the      *)
+(* judge at full width.                                                     *)
+RECURSIVE EnumCount(_, _, _)
+EnumCount(next, end, acc) ==
+  IF BytesLess(end, next) THEN acc ELSE EnumCount(IncBytes(next), end, acc + 1)
+EnumCountOK ==
+  \A i \in 1..Len(emitted) :
+    LET n == EnumCount(RngStart(emitted[i]), RngEnd(emitted[i]), 0)
+    IN /\ n >= 1
+       /\ RngEnumWithin(emitted[i], n)
+       /\ ~RngEnumWithin(emitted[i], n - 1)
+(* OPEN FINDING (not part of the passing configs): what the design needs -  *)
+(* a range costs about one step per covered term, at most one byte carry -  *)
+(* does not hold: a last range that straddles a carry through several        *)
+(* all-ones 7-bit groups makes the byte-wise loop run BB^j steps.           *)
+EnumLinear ==
+  \A i \in 1..Len(emitted) : RngEnumWithin(emitted[i], 2 * B + BB)
+
 -----------------------------------------------------------------------------
 (* Exclusive bounds: stepping one integer turns every flag combination     *)
 (* into the inclusive problem with the right meaning.                      *)
